@@ -22,7 +22,7 @@ from __future__ import annotations
 import ast
 from typing import Optional
 
-from ..core import AnalysisError, ClassInfo, FuncInfo, call_name, norm, short, walk_local
+from ..core import AnalysisError, ClassInfo, FuncInfo, call_name, norm, self_attr, short, walk_local
 from ..engine import Engine
 from ..report import Check
 from .. import g4
@@ -354,6 +354,8 @@ def run(chk: Check, eng: Engine) -> None:
     if rows < 25:
         raise AnalysisError(f"only {rows} operator-table rows recovered from SearchProcessor")
     literal_decoding(chk, eng, "R08-d")
+    chk.rule("R08-f", "an infix rule of the constraint language whose operands can absorb its own operators is handled chain-aware", floor=1)
+    operand_absorption(chk, eng, "R08-f")
     chk.rule("R08-e", "a constant-index context accessor ctx.X(k) is used only where slot k of X is fixed by the rule (no earlier optional occurrence)", floor=10)
     # the selector sub-language (<a>.<b>[..]{..}) belongs to C07; stop the closure where embedded Python starts again
     selector_rules: set[str] = set()
@@ -527,6 +529,111 @@ def literal_decoding(chk: Check, eng: Engine, rule: str) -> None:
                 "string tokens of embedded Python are not decoded through Terminal.clean / eval", "string literals get a hand-made value", keyparts="visitstring")
 
 
+BRACKET_OPEN = {"(", "[", "{", "OPEN_PAREN", "OPEN_BRACK", "OPEN_BRACE"}
+BRACKET_CLOSE = {")", "]", "}", "CLOSE_PAREN", "CLOSE_BRACK", "CLOSE_BRACE"}
+
+
+def operand_absorption(chk: Check, eng: Engine, rule: str) -> None:
+    """R08-f.  An infix rule `E OP E'` of the constraint language whose operand rule can itself derive, outside any brackets, an expression
+    that contains a token spelled like OP is ambiguous: for `2 < x < 5` the generated parser gives one operand the whole `2 < x`.  The handler
+    of such a rule must recognise an operand that is itself an (unparenthesised) chain - otherwise the constraint means `(2 < x) < 5`."""
+    from .. import g4
+    gp = g4.load(eng, "Parser")
+    gl = g4.load(eng, "Lexer")
+
+    def lit(e) -> str:
+        if e.kind == "lit":
+            return e.value[1:-1]
+        if e.kind == "token":
+            return gl.token_literal(e.value) or e.value
+        return ""
+
+    def top_level(name: str) -> tuple[set[str], set[str]]:
+        """(rules, token spellings) that can occur outside brackets in a derivation of `name`."""
+        rules: set[str] = set()
+        toks: set[str] = set()
+        todo = [name]
+        while todo:
+            r = todo.pop()
+            if r in rules or r not in gp.rules:
+                continue
+            rules.add(r)
+
+            def walk(alts):
+                for a in alts:
+                    depth = 0
+                    for e in a:
+                        sp_ = lit(e) if e.kind in ("lit", "token") else ""
+                        if e.kind in ("lit", "token") and (sp_ in BRACKET_OPEN or e.value in BRACKET_OPEN):
+                            depth += 1
+                            continue
+                        if e.kind in ("lit", "token") and (sp_ in BRACKET_CLOSE or e.value in BRACKET_CLOSE):
+                            depth = max(0, depth - 1)
+                            continue
+                        if depth:
+                            continue
+                        if e.kind == "rule":
+                            todo.append(e.value)
+                        elif e.kind in ("lit", "token"):
+                            toks.add(sp_)
+                        elif e.kind == "group":
+                            walk(e.alts)
+            walk(gp.rules[r].alts)
+        return rules, toks
+
+    n = 0
+    cp = eng.cls("fandango.language.parse.convert", "ConstraintProcessor")
+    for rname in sorted(gp.reachable(["constraint"]) - gp.reachable(["expr"])):
+        r = gp.rules[rname]
+        for alt in r.alts:
+            if len(alt) != 3 or alt[0].kind != "rule" or alt[2].kind != "rule":
+                continue
+            mid = alt[1]
+            ops = {lit(mid)} if mid.kind in ("lit", "token") else {lit(e) for a in mid.alts for e in a if e.kind in ("lit", "token")} if mid.kind == "group" else set()
+            ops.discard("")
+            if not ops:
+                continue
+            n += 1
+            absorbed = set()
+            for operand in (alt[0].value, alt[2].value):
+                _, toks = top_level(operand)
+                absorbed |= ops & toks
+            h = cp.lookup(rule_to_method(rname))
+            if not absorbed:
+                chk.ok(rule, f"{rname} (grammar)", r.line, f"infix rule `{alt[0].value} {sorted(ops)} {alt[2].value}`: no operand can contain these operators outside brackets")
+                continue
+            if h is None:
+                chk.bad(rule, gp.path, r.line, rname, f"infix rule `{rname}` has no handler in ConstraintProcessor", "default aggregation", keyparts=f"absorb-no-handler|{rname}")
+                continue
+            # the handler must *branch* on a value obtained by inspecting an operand: an `if` whose test (through local definitions) depends on
+            # isinstance(<operand>, ast.Compare) or on a helper that looks for a ComparisonContext / compare_op pairs in the operand's context
+            def inspects(e: ast.AST) -> bool:
+                for c in ast.walk(e):
+                    if isinstance(c, ast.Call) and call_name(c) == "isinstance" and len(c.args) == 2 and "Compare" in norm(c.args[1]):
+                        return True
+                    if isinstance(c, ast.Call) and isinstance(c.func, ast.Attribute) and self_attr(c.func) and cp.lookup(c.func.attr) is not None and c.args:
+                        body = ast.unparse(cp.lookup(c.func.attr).node)  # type: ignore[union-attr]
+                        if ("ComparisonContext" in body or "compare_op" in body) and any("ctx" in norm(a_) for a_ in c.args):
+                            return True
+                return False
+
+            defs = {t.id: a.value for a in walk_local(h.node) if isinstance(a, ast.Assign) for t in a.targets if isinstance(t, ast.Name)}
+            aware = False
+            for i_ in walk_local(h.node):
+                if isinstance(i_, ast.If):
+                    exprs = [i_.test] + [defs[n_.id] for n_ in ast.walk(i_.test) if isinstance(n_, ast.Name) and n_.id in defs]
+                    if any(inspects(e_) for e_ in exprs):
+                        aware = True
+            if aware:
+                chk.ok(rule, h.fq, h.line, f"operands of `{rname}` can absorb {sorted(absorbed)} (e.g. `2 < x < 5`); the handler recognises an operand that is itself a comparison chain")
+            else:
+                chk.bad(rule, eng.relfile(h), h.line, h.fq, f"operands of `{rname}` can themselves contain {sorted(absorbed)[:4]} outside brackets, and the handler builds the constraint from the two "
+                        "operands as the parser split them", "a chained comparison `2 < x < 5` is evaluated as `(2 < x) < 5` - true for every x: the embedded Python expression silently changes its meaning",
+                        keyparts=f"operand-absorption|{rname}")
+    if n == 0:
+        raise AnalysisError("no infix rule found in the constraint part of the grammar")
+
+
 def rule_c(chk: Check, eng: Engine, sp: ClassInfo) -> None:
     from ..cfg import CFG
 
@@ -596,6 +703,7 @@ from ..mutants import M  # noqa: E402
 _CV = "src/fandango/language/parse/convert.py"
 _G4 = "language/FandangoParser.g4"
 MUTANTS = [
+    M("chained-comparison-not-rejoined", "src/fandango/language/parse/convert.py", "        left_chain = self._is_comparison_chain(ctx.expr(0))\n        right_chain = self._is_comparison_chain(ctx.expr(1))\n", "        left_chain = False\n        right_chain = False\n", "R08-f"),
     M("fold-negative-literals", _CV, "        elif ctx.MINUS():\n            return self._visit_unary_op(ctx, ast.USub())\n", "        elif ctx.MINUS():\n            tree, searches, search_map = self._visit_unary_op(ctx, ast.USub())\n            if isinstance(tree.operand, ast.Constant):\n                return ast.Constant(value=-tree.operand.value), searches, search_map\n            return tree, searches, search_map\n", "R08-b"),
     M("literal-fast-path", "src/fandango/language/symbols/terminal.py", "        return cast(\n            str | bytes | int, eval(symbol)\n        )", "        if symbol[0] in \"'\\\"\" and \"\\\\\" not in symbol:\n            return symbol[1:-1]\n        return cast(\n            str | bytes | int, eval(symbol)\n        )", "R08-d"),
     M("drop-star-named-handler", _CV, "    def visitStar_named_expression(\n        self, ctx: FandangoParser.Star_named_expressionContext\n    ):", "    def visit_Star_named_expression(\n        self, ctx: FandangoParser.Star_named_expressionContext\n    ):", "R08-a"),
